@@ -1083,7 +1083,17 @@ func init() {
 		}
 		return s
 	})
-	reg("(*"+bp+"Pool).Put", noop)
+	// Put clears the buffer, as the real pool does (a slice still used after it went back to the pool reads as
+	// zeros); buffers are not handed out again, so reuse after Put shows as zeros rather than as foreign data
+	reg("(*"+bp+"Pool).Put", func(fr *frame, a []value) value {
+		if buf, ok := a[1].([]value); ok {
+			for i := range buf {
+				buf[i] = uint8(0)
+			}
+			fr.i.px.onBulkStore(fr, buf)
+		}
+		return nil
+	})
 
 	// ---------------- randomness / time ----------------
 	reg("math/rand.Int", func(fr *frame, a []value) value {
